@@ -37,7 +37,7 @@ CLSN = 'PrefetchedCourierServer'
 
 
 def run(ctx: Ctx):
-  for r in (r1, r2, r3, r4, r5, r8):
+  for r in (r1, r2, r3, r4, r5, r8, r12):
     ctx.guard(r)
   from mlmverif.props._queue import model as qmodel
   ctx.include('R-C15-6', '"never leaves a request blocked" / "end marker'
@@ -67,6 +67,54 @@ def run(ctx: Ctx):
               ' waiters on both conditions (R-C05-1 store-then-notify_all, R-C05-5) — a'
               ' producer woken first re-checks a flag that is not set yet, waits again and'
               ' _stop_prefetch joins it for ever', _c05_stop_shared, qmodel(ctx), min_instances=10)
+
+def r12(ctx: Ctx):
+  rule = 'R-C15-12'
+  ctx.rule(rule, '"a generator failure is delivered as that exception after the elements produced'
+           ' before it" — on the CLIENT too: in CourierClient.async_iterate the batch received'
+           ' from the server is walked in order, every non-exception element is yielded, and an'
+           ' exception taken from the batch is raised only at its own position: each `raise` of'
+           ' a value that comes out of the received batch is the loop variable of the `for ...'
+           ' in <batch>` loop that also yields. Looking at the tail first and raising before the'
+           ' loop loses the elements that travelled in the same response as the failure')
+  from mlmverif.core import parent_map
+  fi = ctx.repo.func('utils.courier_utils', 'CourierClient.async_iterate')
+  pm = parent_map(fi.node)
+  # the batch variable: assigned from an awaited next-batch response
+  awaited = {x.targets[0].id for x in walk_no_nested(fi.node) if isinstance(x, ast.Assign)
+             and isinstance(x.targets[0], ast.Name) and any(isinstance(y, ast.Await) for y in ast.walk(x.value))}
+  loops = [l for l in walk_no_nested(fi.node) if isinstance(l, ast.For) and isinstance(l.iter, ast.Name)
+           and l.iter.id in awaited and isinstance(l.target, ast.Name)]
+  batch = loops[0].iter.id if loops else None
+  if batch is None or not loops:
+    raise AnalysisError(f'{rule}: async_iterate no longer walks the received batch with a for loop')
+  lp = loops[0]
+  lv = lp.target.id
+  inside = {id(y) for y in ast.walk(lp)}
+  yields_in = any(isinstance(y, ast.Yield) and isinstance(y.value, ast.Name) and y.value.id == lv for y in ast.walk(lp))
+  # values taken out of the batch outside the loop
+  taken = {t.id for x in ast.walk(fi.node) if isinstance(x, (ast.Assign, ast.NamedExpr))
+           for t in ([x.target] if isinstance(x, ast.NamedExpr) else x.targets) if isinstance(t, ast.Name)
+           and any(isinstance(y, ast.Name) and y.id == batch for y in ast.walk(x.value)) and id(x) not in inside}
+  n = 0
+  bad = None
+  for r_ in ast.walk(fi.node):
+    if isinstance(r_, ast.Raise) and isinstance(r_.exc, ast.Name) and (r_.exc.id == lv or r_.exc.id in taken):
+      n += 1
+      if id(r_) not in inside or r_.exc.id != lv:
+        bad = r_
+  if not yields_in:
+    ctx.fail(rule, fi, 'async_iterate: the batch loop yields its elements', 'the loop over the received batch'
+             ' no longer yields the elements', node=lp)
+  elif bad is not None:
+    ctx.fail(rule, fi, 'async_iterate: a failure inside a batch is raised at its own position',
+             f'`{unparse(bad)}` raises an exception taken from the received batch outside the loop that yields'
+             ' the batch in order: the elements ahead of it in the same response are never yielded — the'
+             ' client sees the failure before (instead of after) the elements produced before it', node=bad)
+  else:
+    ctx.ok(rule, fi, 'batch walked in order: yield elements, raise a failure where it stands', lp)
+  ctx.floor(rule, 1, max(n, 1))
+
 
 
 def _c05_stop_shared(sub, m):
@@ -425,6 +473,10 @@ from mlmverif.selfcheck import B, OK  # noqa: E402
 
 _F = 'chainables/courier_server.py'
 VARIANTS = [
+    B('client-raises-batch-tail-first', 'utils/courier_utils.py',
+      '        for elem in output_batch:\n          if not isinstance(elem, Exception):\n            yield elem\n            batch_cnt += 1\n            continue\n',
+      '        if output_batch and isinstance(tail := output_batch[-1], Exception) and not iter_utils.is_stop_iteration(tail):\n          raise tail\n        for elem in output_batch:\n          if not isinstance(elem, Exception):\n            yield elem\n            batch_cnt += 1\n            continue\n',
+      'R-C15-12'),
     B('subclass-state-before-base-init', _F,
       '    super().__init__(\n        server_name,\n        port=port,\n        auto_shutdown_secs=timeout_secs,\n        clients=clients,\n    )\n    self.prefetch_size = prefetch_size',
       '    self._shutdown_callback = self._stop_prefetch\n    super().__init__(\n        server_name,\n        port=port,\n        auto_shutdown_secs=timeout_secs,\n        clients=clients,\n    )\n    self.prefetch_size = prefetch_size',
